@@ -26,7 +26,10 @@ import json
 import os
 import random
 
-import numpy as np
+# tiny arrays only: BLAS/OpenMP thread pools just oversubscribe the machine
+for _var in ("OMP_NUM_THREADS", "OPENBLAS_NUM_THREADS", "MKL_NUM_THREADS"):
+    os.environ.setdefault(_var, "1")
+import numpy as np  # noqa: E402
 import networkx as nx
 
 import common
